@@ -21,8 +21,10 @@ package fasthttp
 //@   ensures[forgotten] resp.bodyStream == nil
 
 //@ func Request.closeBodyStream results err
-//@   property C34
+//@   property C34 C35
 //@   mode skeleton
+//@   modifies req.bodyStream
+//@   frame assumed
 //@   ghost closes int = 0
 //@   on call io.Closer.Close -> e:
 //@     nohavoc
@@ -44,6 +46,7 @@ package fasthttp
 //@   ghost declared int = -2
 //@   on call ResponseHeader.ContentLength -> n:
 //@     nohavoc
+//@     effect declared = n
 //@   on call ResponseHeader.SetContentLength(_, n):
 //@     nohavoc
 //@     effect declared = n
@@ -57,6 +60,7 @@ package fasthttp
 //@   on call writeBodyFixedSize(_, _, n) -> e:
 //@     nohavoc
 //@     requires[header-first] headers == 1 && n >= 0
+//@     requires[header-declares-this-size] declared == n
 //@     effect fixed = fixed + 1
 //@   on call writeBodyChunked -> e:
 //@     nohavoc
@@ -84,6 +88,7 @@ package fasthttp
 //@   ghost declared int = -2
 //@   on call RequestHeader.ContentLength -> n:
 //@     nohavoc
+//@     effect declared = n
 //@   on call RequestHeader.SetContentLength(_, n):
 //@     nohavoc
 //@     effect declared = n
@@ -95,6 +100,7 @@ package fasthttp
 //@   on call writeBodyFixedSize(_, _, n) -> e:
 //@     nohavoc
 //@     requires[header-first] headers == 1 && n >= 0
+//@     requires[header-declares-this-size] declared == n
 //@     effect fixed = fixed + 1
 //@   on call writeBodyChunked -> e:
 //@     nohavoc
